@@ -221,6 +221,8 @@ def run_shard(ctx):
     rng = ctx.rng
     for c in range(n_rand):
         n = int(rng.choice([2, 3, 5, 8, 13, 50, 200, 1000, 5000], p=[.05, .05, .1, .1, .1, .2, .2, .15, .05]))
+        if c == 0 and (ctx.tier != 'quick' or ctx.shard % 4 == 0):
+            n = int(rng.choice([65535, 65536, 65537, 70001, 131073]))     # a few long series past 2**16
         x, cls = random_series(rng, n)
         nontriv = len(set(x.tolist())) > 1
         cont = x
@@ -237,6 +239,9 @@ def run_shard(ctx):
             cont = x.tolist()
         elif rng.random() < 0.2 and np.all(x == np.round(x)):
             cont = x.astype(np.int64)
+        elif rng.random() < 0.12:
+            cont, vk = gen.view_form(rng, x)          # strided / negative-stride / read-only view of the same numbers
+            cls += '-' + vk
         ctx.case(core.digest(x, 'rand'), nontrivial=nontriv, cls='random-' + cls,
                  sample={'fn': 'get_peak_array_indices+get_n_cyc_array', 'n': n, 'class': cls, 'head': x[:10]})
         if not nontriv:
